@@ -42,6 +42,8 @@ Inductive tok :=
 | TSpecial (d:dec)                       (* inf / infinity / nan / snan with optional sign *)
 | TNum (s:bool) (digits nfrac exp : Z)   (* (-1)^s * digits * 10^(exp - nfrac) *)
 | TSnanJunk (s:bool)                     (* "snan" followed by further characters: unspecified, see DESIGN 10/C04 (e) *)
+| TExpJunk (s:bool) (digits nfrac exp : Z)  (* a complete literal with exponent, followed by further characters: ill-formed
+                                             (known finding KF_EXPJUNK: the crate returns the literal's value) *)
 | TGarbage.
 
 Definition is_nil (l : list Z) : bool := match l with [] => true | _ => false end.
@@ -63,7 +65,9 @@ Definition lex (l0 : list Z) : tok :=
         if (e =? 101) || (e =? 69) then
           let '(es, r4) := match r3 with 43 :: r' => (false, r') | 45 :: r' => (true, r') | _ => (false, r3) end in
           let '(ev, ne, r5) := read_digits r4 0 0 in
-          if (ne =? 0) || negb (is_nil r5) then TGarbage else TNum s fp nf (if es then - ev else ev)
+          if ne =? 0 then TGarbage
+          else if negb (is_nil r5) then TExpJunk s fp nf (if es then - ev else ev)
+          else TNum s fp nf (if es then - ev else ev)
         else TGarbage
     end.
 
@@ -73,6 +77,7 @@ Definition parse_num (md:rmode) (s:bool) (digits nfrac exp : Z) : dec * flags :=
 Inductive str_expect :=
 | SList (l : list outcome)
 | SGarbage            (* a canonical quiet NaN (payload 0, either sign), no flag *)
+| SExpJunk (l : list outcome)   (* required: as SGarbage; known finding: the value of the literal in front of the junk *)
 | SSnanJunk (s:bool). (* unspecified: signaling or quiet NaN *)
 
 Definition m_parse (md:rmode) (l : list Z) : str_expect :=
@@ -80,6 +85,7 @@ Definition m_parse (md:rmode) (l : list Z) : str_expect :=
   | TSpecial d => SList (out1 d 0)
   | TNum s digits nfrac exp => SList (fin_out (parse_num md s digits nfrac exp))
   | TSnanJunk s => SSnanJunk s
+  | TExpJunk s digits nfrac exp => SExpJunk (fin_out (parse_num md s digits nfrac exp))
   | TGarbage => SGarbage
   end.
 
